@@ -947,23 +947,23 @@ func corpus() []History {
 		op2 := importOp(main[1:4], seqTok(1, 3), 1, 2, "block-ahead-overlap")
 		out = append(out, History{Variant: 0, Nodes: g.nodes, InitB: main[:8], InitF: initF(4), Ops: []Op{op, op2}})
 	}
-	// F27: block store ahead; the filter store catches up over several
+	// F-C14-3: block store ahead; the filter store catches up over several
 	// filter-only batches, then both are extended; file ending below the
 	// block tip (start 0, batch 2); filter write failing inside the
 	// divergence region
 	{
 		g, main := mk(1, 21)
-		op := importOp(main[3:21], seqTok(3, 20), 3, 2, "f27")
+		op := importOp(main[3:21], seqTok(3, 20), 3, 2, "fc14-3")
 		rep := op
 		rep.Tag = "repeat"
 		out = append(out, History{Variant: 1, Nodes: g.nodes, InitB: main[:10], InitF: initF(5), Ops: []Op{op, rep}})
 		ff := seqTok(0, 8)
 		ff[0] = 0
-		op2 := importOp(main[0:9], ff, 0, 2, "f27-short")
+		op2 := importOp(main[0:9], ff, 0, 2, "fc14-3-short")
 		rep2 := op2
 		rep2.Tag = "repeat"
 		out = append(out, History{Variant: 1, Nodes: g.nodes, InitB: main[:10], InitF: initF(5), Ops: []Op{op2, rep2}})
-		op3 := importOp(main[1:21], seqTok(1, 20), 1, 2, "f27-fault")
+		op3 := importOp(main[1:21], seqTok(1, 20), 1, 2, "fc14-3-fault")
 		op3.FailFW = 2
 		rep3 := op3
 		rep3.FailFW = 0
